@@ -26,6 +26,8 @@ type waiter struct {
 	free func() bool
 	ch   chan struct{}
 	ord  uint64 // arrival order, only used to break exact (site,key) ties
+	// frozen tasks belong to a crashed process incarnation: they are never scheduled again
+	frozen bool
 }
 
 // Policy selects which enabled task runs next.
@@ -182,6 +184,30 @@ func (s *Sim) hookYield(site string, key uint64, free func() bool) {
 	<-w.ch
 }
 
+// FreezeParked marks every task that is parked right now, except those whose site has one of the
+// given prefixes, as belonging to a crashed process: it stays parked for the rest of the run.
+// It returns the sites that were frozen.
+func (s *Sim) FreezeParked(exceptPrefixes ...string) []string {
+	s.mu.Lock()
+	defer s.mu.Unlock()
+	var sites []string
+outer:
+	for _, w := range s.parked {
+		if w.frozen {
+			continue
+		}
+		for _, p := range exceptPrefixes {
+			if strings.HasPrefix(w.site, p) {
+				continue outer
+			}
+		}
+		w.frozen = true
+		sites = append(sites, w.site)
+	}
+	sort.Strings(sites)
+	return sites
+}
+
 // Go starts a task; it begins parked at site "go:"+name with the given key.
 func (s *Sim) Go(name string, key uint64, fn func()) {
 	go func() {
@@ -222,6 +248,9 @@ func (s *Sim) enabled() []*waiter {
 	s.mu.Lock()
 	ws := make([]*waiter, 0, len(s.parked))
 	for _, w := range s.parked {
+		if w.frozen {
+			continue
+		}
 		if w.free == nil || w.free() {
 			ws = append(ws, w)
 		}
